@@ -14,26 +14,45 @@ theorem foldl_sub_le (g : Nat → Nat) (high : Nat) : ∀ (l : List Nat) (base :
     · exact Nat.le_trans (foldl_sub_le g high rest _) (Nat.sub_le _ _)
     · exact foldl_sub_le g high rest _
 
-/-- the gap, in cpus of the lower class, never exceeds what the higher class cannot use of the worker -/
-theorem gap_mul_lt (inst : Instance) (high low : Nat) (w : Worker) (hpos : 0 < inst.need high) :
+/-- a class that asks for cpus only: capability and immediate fit are the cpu comparisons -/
+theorem capable_cpu {inst : Instance} {c : Nat} (hc2 : inst.need2 c = 0) (w : Worker) :
+    capable inst c w = decide (inst.need c ≤ w.total) := by
+  simp [capable, hc2]
+
+theorem fitsNow_cpu {inst : Instance} {c : Nat} (hc2 : inst.need2 c = 0) (w : Worker) :
+    fitsNow inst c w = decide (inst.need c ≤ w.free) := by
+  simp [fitsNow, hc2]
+
+/-- the gap between two cpu-only classes is the cpu-only gap: the second resource kind plays no part -/
+theorem gap_cpu {inst : Instance} {high low : Nat} (hh : inst.need2 high = 0) (hl : inst.need2 low = 0) (w : Worker) :
+    gap inst high low w =
+      gapLeft inst.need high w.assigned (w.total - inst.need high * (w.total / inst.need high)) / inst.need low := by
+  simp [gap, fitCount, hh, hl]
+
+/-- the gap, in cpus of the lower class, never exceeds what the higher class cannot use of the worker (cpu-only
+classes; with a second resource kind this is false, see `c15_counterexample_two_resources`) -/
+theorem gap_mul_lt (inst : Instance) (high low : Nat) (w : Worker) (hpos : 0 < inst.need high)
+    (hh : inst.need2 high = 0) (hl : inst.need2 low = 0) :
     inst.need low * gap inst high low w < inst.need high := by
   have h1 : inst.need low * gap inst high low w ≤
       w.total - inst.need high * (w.total / inst.need high) := by
-    unfold gap
+    rw [gap_cpu hh hl]
+    unfold gapLeft
     exact Nat.le_trans (Nat.mul_div_le _ _) (foldl_sub_le _ _ _ _)
   have h2 : w.total - inst.need high * (w.total / inst.need high) < inst.need high := by
     rw [← Nat.mod_def]; exact Nat.mod_lt _ hpos
   omega
 
 theorem limitOf_one {inst : Instance} {w : Worker} (hw : inst.workers = [w]) {c : Nat}
-    (hcap : inst.need c ≤ w.total) : inst.limitOf c = max 1 (w.free / inst.need c) := by
-  simp [Instance.limitOf, hw, hcap]
+    (hc2 : inst.need2 c = 0) (hcap : inst.need c ≤ w.total) : inst.limitOf c = max 1 (w.free / inst.need c) := by
+  simp [Instance.limitOf, hw, capable_cpu hc2, hcap, fitCount, hc2]
 
 /-- on one worker that can run the class, a count that fits into the free cpus is within the limit -/
 theorem le_limitOf_one {inst : Instance} {w : Worker} (hw : inst.workers = [w]) {c n : Nat}
-    (hcap : inst.need c ≤ w.total) (hpos : 0 < inst.need c) (hfit : inst.need c * n ≤ w.free) :
+    (hc2 : inst.need2 c = 0) (hcap : inst.need c ≤ w.total) (hpos : 0 < inst.need c)
+    (hfit : inst.need c * n ≤ w.free) :
     n ≤ inst.limitOf c := by
-  rw [limitOf_one hw hcap]
+  rw [limitOf_one hw hc2 hcap]
   have : n ≤ w.free / inst.need c := by
     rw [Nat.le_div_iff_mul_le hpos, Nat.mul_comm]; exact hfit
   omega
@@ -93,12 +112,25 @@ theorem dispatched_on_one {inst : Instance} {w : Worker} (hw : inst.workers = [w
   rw [hid]
   exact he
 
+/-- the weight of a cpu-only class on the single worker: its cpus, times a factor common to all such classes (the
+free amount of the second resource kind enters only through the common denominator) -/
 theorem weightP_one {inst : Instance} {w : Worker} (hw : inst.workers = [w]) (hfree : 0 < w.free) {c : Nat}
-    (hwt : inst.weight c = 10000) : weightP inst 0 c = inst.need c * 1000000 := by
+    (hc2 : inst.need2 c = 0) (hwt : inst.weight c = 10000) :
+    weightP inst 0 c = (max w.free2 1 * 1000000) * inst.need c := by
   have hs : inst.freeSum = w.free := by simp [Instance.freeSum, hw]
+  have hs2 : inst.freeSum2 = w.free2 := by simp [Instance.freeSum2, hw]
   have : ¬ w.free = 0 := by omega
-  simp only [weightP, hs, this, ↓reduceIte, hw, List.length_cons, List.length_nil, hwt]
-  omega
+  simp only [weightP, shareP, hs, hs2, this, ↓reduceIte, hw, List.length_cons, List.length_nil, hwt, hc2,
+    Nat.zero_mul, Nat.sub_zero]
+  split
+  · simp only [Nat.add_zero]
+    rw [Nat.mul_comm (inst.need c), Nat.mul_assoc, Nat.mul_assoc, Nat.mul_assoc, Nat.mul_assoc]
+    congr 1
+    omega
+  · simp only [Nat.add_zero]
+    rw [Nat.mul_comm (inst.need c), Nat.mul_assoc, Nat.mul_assoc, Nat.mul_assoc, Nat.mul_assoc]
+    congr 1
+    omega
 
 theorem weight_of_classes {inst : Instance} (hwt : ∀ k ∈ inst.classes, k.weight = 10000) {c : Nat}
     (hc : c < inst.classes.length) : inst.weight c = 10000 := by
@@ -110,7 +142,12 @@ theorem need_pos_of_classes {inst : Instance} (hwf : inst.WF) {c : Nat} (hc : c 
   simp only [Instance.need, List.getElem?_eq_getElem hc]
   exact hwf.needPos _ (List.getElem_mem hc)
 
-theorem mul_form (a b : Nat) : a * 1000000 * b = 1000000 * (a * b) := by
-  rw [Nat.mul_comm a 1000000, Nat.mul_assoc]
+/-- a positive factor common to all objective weights cancels -/
+theorem obj_cancel {K a b c d f g : Nat} (hK : 0 < K) (hle : K * a * b + K * c * d ≤ K * a * f + K * c * g) :
+    a * b + c * d ≤ a * f + c * g := by
+  have : K * (a * b + c * d) ≤ K * (a * f + c * g) := by
+    rw [Nat.mul_add, Nat.mul_add, ← Nat.mul_assoc, ← Nat.mul_assoc, ← Nat.mul_assoc, ← Nat.mul_assoc]
+    exact hle
+  exact Nat.le_of_mul_le_mul_left this hK
 
 end HqModel.Sched
